@@ -390,7 +390,7 @@ func (o OrderedCollection) Equals(with Item) bool {
 		return false
 	}
 	result := true
-	_ = OnOrderedCollection(with, func(w *OrderedCollection) error {
+	err := OnOrderedCollection(with, func(w *OrderedCollection) error {
 		_ = OnCollection(w, func(wo *Collection) error {
 			if !wo.Equals(o) {
 				result = false
@@ -406,6 +406,9 @@ func (o OrderedCollection) Equals(with Item) bool {
 		}
 		return nil
 	})
+	if err != nil {
+		result = false
+	}
 	return result
 }
 
